@@ -134,6 +134,11 @@ func execGE(_ *config, op string) string {
 			tol, r := f[0], f[1]
 			p := geo.NewProcessor(geo.Tolerance(tol), geo.Radius(r))
 			p2 := geo.NewProcessor(geo.Tolerance(2*tol), geo.Radius(r))
+			if math.Float64bits(f[3])&2 == 2 {
+				// options in the other order: the result must not depend on it
+				p = geo.NewProcessor(geo.Radius(r), geo.Tolerance(tol))
+				p2 = geo.NewProcessor(geo.Radius(r), geo.Tolerance(2*tol))
+			}
 			if math.Float64bits(f[2])&1 == 1 {
 				// a used processor: it has answered for a much longer line from the same start point
 				// and for another position before; the answers below must not depend on that
@@ -153,6 +158,11 @@ func execGE(_ *config, op string) string {
 			if toks[1] == "1" {
 				opts = append(opts, geo.FastDistance())
 				opts2 = append(opts2, geo.FastDistance())
+				if math.Float64bits(f[2])&2 == 2 {
+					// options in the other order: the result must not depend on it
+					opts = []geo.Option{geo.FastDistance(), geo.Radius(f[0])}
+					opts2 = []geo.Option{geo.FastDistance(), geo.Radius(2 * f[0])}
+				}
 			}
 			p, p2 := geo.NewProcessor(opts...), geo.NewProcessor(opts2...)
 			if math.Float64bits(f[1])&1 == 1 {
@@ -332,6 +342,19 @@ func genGE(cfg *config, r *rng, i int, s *sink) string {
 			along = pick(r, []float64{-3 * tol, 2 * tol, length + 3*tol, length - 2*tol})
 			off = r.float01() * 0.3 * tol
 			s.count("ge.line.long_diagonal_ends")
+		}
+		if r.chance(1, 10) && kind != "dist" {
+			// a very short line with a centimetre tolerance and a position a centimetre or two from
+			// one of its ends (the products of the distances involved are tiny, nothing is degenerate)
+			length = (1 + r.float01()*2) * scale
+			lat2, lon2 = offsetPoint(lat, lon, bearing, length, radius)
+			tol = pick(r, []float64{0.01, 0.02}) * scale
+			along = pick(r, []float64{0.015 * scale, 0.03 * scale, length - 0.015*scale, length / 2})
+			off = r.float01() * 0.5 * tol
+			if kind == "dtl" {
+				off = pick(r, []float64{0, 0.005, 0.5}) * scale
+			}
+			s.count("ge.line.short_near_end")
 		}
 		side := 90.0
 		if r.bool() {
